@@ -5,6 +5,7 @@ trace: the first operation the model finds on a measured qubit must stop the run
 Runtime error and no simulator operation; runs the model lets finish must finish; the evaluator's
 and the simulator's measured flags must agree at every statement boundary (trace 'flags' events)."""
 import itertools
+import re
 
 from .. import build, core, qlang
 
@@ -58,6 +59,12 @@ def judge(ctx, case, src, res):
                       (cls[2], stop.line, stop.reason), case, files)
     # nothing may have reached the simulator for the refused operation
     rest = [e for e in m.ev[m.pos:] if e["k"] == "sim" and e["op"] != "reset"]
+    if stop.reason.startswith("destructor"):
+        # other objects dying at the same scope exit still run their destructors (the error is
+        # raised once the scope is closed): only the refused qubit itself must stay untouched
+        mo = re.search(r"measured qubit (\d+)", stop.reason)
+        q = int(mo.group(1)) if mo else -1
+        rest = [e for e in rest if q in (e["q0"], e["q1"])]
     if rest:
         ctx.violation("flag:op-reached-simulator", "after the refusal point the simulator still performed %s q%d" %
                       (rest[0]["op"], rest[0]["q0"]), case, files)
